@@ -7,7 +7,7 @@ for d in checks/mutants/$PID/*.diff; do
   rm -rf $W; cp -r /repo $W; rm -rf $W/.git
   if ! (cd $W && patch -p1 -s < /verif/$d); then echo "$PID/$n: PATCH FAILED"; rm -rf $W; continue; fi
   if ! (cd $W && GOFLAGS=-mod=mod GOPROXY=off go build ./... 2>/dev/null); then echo "$PID/$n: does not compile"; rm -rf $W; continue; fi
-  VERIF_REPO=$W bin/check $PID $TIER > /tmp/mut-$PID-$n.log 2>&1; rc=$?
+  VERIF_REPO=$W timeout 1500 bin/check $PID $TIER > /tmp/mut-$PID-$n.log 2>&1; rc=$?
   keys=$(grep -E "^  key=" /tmp/mut-$PID-$n.log | sed 's/ :.*//' | tr -d ' ' | tr '\n' ' ')
   echo "$PID/$n: rc=$rc $keys"
   rm -rf $W /tmp/mut-$PID-$n.log
